@@ -26,6 +26,17 @@ blocks that on air are BPTC / trellis codewords of other PDUs, confirmed blocks 
 CRC-9, data) is a CRC-valid header / link control (searched); the payload handed over as an OBJECT the signature
 accepts (BytesInterface wrapper, the own header object passed twice, parsed header / CSBK / link control / burst
 objects); an earlier transmission on the same terminal and slot whose header / last block / payload is quoted.
+
+Round 6: (a) the caller's header and the generator's arguments are crossed independently (`header_cross_cases`): data packet
+format (every format the library serialises) x A bit x announced block count (right / 0 / one off / 1 / maximum) x preset pad
+count (right / the other mode's / off by one / 0 / 31) x SAP, group and full-message flags, addresses x rate x preamble count
+(0..16, 17, 33, 100, the largest the CSBK field holds, one more) x lengths on the block grid x constant / periodic / zero
+content.  The mode is what the model says (the A bit); where neither the header nor a preamble tells the receiver the
+number of blocks the reference is the model (tracker lines) plus what is on the wire.  (b) `wire_oracle`: every generated
+burst is parsed back and every `*_ok` indicator of the parsed objects must be true, the CRC-CCITT of preambles and header
+is recomputed independently, the blocks on the wire concatenate to payload + the pad the header on the wire announces.
+(c) `Peek` / `run_observed`: a share of the cases runs twice, once with observer-style calls (repr, str, debug, getters,
+flags, as_bits …) on every object involved between the steps; outcomes must be identical.
 """
 import binascii
 import contextlib
@@ -35,6 +46,7 @@ import json
 import logging
 import os
 import random as _random
+import re
 import subprocess
 import sys
 import tempfile
@@ -393,6 +405,239 @@ def as_userdata(how, payload, header, info):
     return obj if obj is not None else Octets(payload)
 
 
+# ------------------------------------------------------------------------------------------------
+# round 6: the caller's header and the generator's arguments, every field on its own.  The generator reads the
+# response requested (A) bit (-> confirmed / unconfirmed blocks), the pad octet count (asserted), the two addresses;
+# the receiver reads the blocks to follow of the format at hand (none for UDT, appended blocks for defined short data),
+# the A bit and the SAP.  Nothing couples the data packet format, the A bit, the announced block count and the rest.
+# ------------------------------------------------------------------------------------------------
+HDR_FMTS = ("unconfirmed", "confirmed", "response", "sdd", "udt")
+POC_ON_AIR = ("unconfirmed", "confirmed")  # formats whose pad octet count is a field on air
+BTF_LIMIT = {"unconfirmed": 127, "confirmed": 127, "response": 127, "sdd": 63, "udt": 3}
+BTF_MODES = ("right", "zero", "plus1", "minus1", "one", "max")
+POC_MODES = ("right", "other-mode", "plus1", "zero", "max")
+SAP_VALUES = (0, 2, 3, 4, 5, 9, 10, 15)
+ADDRESSES = (0, 1, 0xFFFFFF, 0xFFFFFE, 0x800000, 5)
+
+
+def hdr_poc(spec, right, other):
+    """the pad octet count the caller presets: the generator's, the one of the OTHER mode (the blocks the data packet
+    format would suggest), one more, 0, the largest"""
+    m = spec.get("poc", "right")
+    v = {"right": right, "other-mode": other, "plus1": right + 1, "zero": 0, "max": 31}.get(m, right)
+    return v % 32 if spec["fmt"] in POC_ON_AIR else v
+
+
+def hdr_btf(spec, right):
+    """the number of blocks the caller announces: the generator's, 0 (left to the library), an estimate one off, 1, the
+    largest the field of this format holds"""
+    lim = BTF_LIMIT[spec["fmt"]]
+    m = spec.get("btf", "right")
+    v = {"right": right, "zero": 0, "plus1": right + 1, "minus1": max(0, right - 1), "one": 1, "max": lim}.get(m, right)
+    return v if m == "right" else min(v, lim)
+
+
+def build_header(spec, poc, btf):
+    """a `DataHeader` of any format the library serialises, every field from `spec` (no field derived from another)"""
+    l = L()
+    from bitarray.util import int2ba
+
+    fmt, x = spec["fmt"], spec.get("x", 0)
+    a = int(bool(spec["a"])) if spec.get("a_as_int") else bool(spec["a"])
+    sap = l.SAPIdentifier(spec["sap"])
+    fmf = l.FullMessageFlag(spec["fmf"])
+    dst, src = spec["dst"], spec["src"]
+    if fmt in ("unconfirmed", "confirmed"):
+        return l.DataHeader(
+            dpf=l.DataPacketFormats.DataPacketConfirmed if fmt == "confirmed" else l.DataPacketFormats.DataPacketUnconfirmed,
+            is_group=spec["group"], is_response_requested=a, pad_octet_count=poc, sap_identifier=sap, llid_destination=dst, llid_source=src,
+            full_message_flag=fmf, blocks_to_follow=btf, resynchronize_flag=l.ResynchronizeFlag(spec.get("resync", 0)),
+            send_sequence_number=spec.get("ns", 0), fragment_sequence_number=spec.get("fsn", 8))
+    if fmt == "response":
+        return l.DataHeader(dpf=l.DataPacketFormats.ResponsePacket, is_response_requested=a, pad_octet_count=poc, sap_identifier=sap,
+                            llid_destination=dst, llid_source=src, full_message_flag=fmf, blocks_to_follow=btf,
+                            response_class=x & 3, response_type=(x >> 2) & 7, response_status=(x >> 5) & 7)
+    if fmt == "sdd":
+        return l.DataHeader(dpf=l.DataPacketFormats.ShortDataDefined, is_group=spec["group"], is_response_requested=a, pad_octet_count=poc,
+                            appended_blocks=btf, sap_identifier=sap, llid_destination=dst, llid_source=src,
+                            defined_data_format=l.DefinedDataFormats.from_bits(int2ba(x & 63, length=6)), sarq=l.SARQ((x >> 6) & 1),
+                            full_message_flag=fmf, bit_padding=int2ba((x >> 7) & 255, length=8))
+    # UDT: built from its bits as the library parses them (the check field 0 = "please generate"), pad count as attribute
+    bits = (l.bitarray([spec["group"], int(bool(spec["a"])), x & 1, (x >> 1) & 1]) + l.DataPacketFormats.UnifiedDataTransport.as_bits()
+            + sap.as_bits() + int2ba((x >> 2) & 15, length=4) + int2ba(dst, length=24) + int2ba(src, length=24)
+            + int2ba((x >> 6) & 31, length=5) + l.bitarray("0") + int2ba(btf & 3, length=2) + l.bitarray([(x >> 11) & 1, 0])
+            + l.CsbkOpcodes.PreambleCSBK.as_bits() + l.bitarray("0" * 16))
+    h = l.DataHeader.from_bits(bits)
+    h.pad_octet_count = poc
+    return h
+
+
+def wire_oracle(l, fail, wire, cls, rate, confirmed, k, cc, payload, pad, nblocks, hdr_hex, pad_on_air=True):
+    """what the generator put on the wire, burst by burst, without any receiver state: every integrity indicator of every
+    parsed burst is true (slot type parity, header CRC, CRC-9 — whatever `*_ok` attribute the parsed objects have) and the
+    CRC-CCITT of preambles and header verifies independently; k preambles counting down, the header (`hdr_hex`: as it was
+    handed in, when it announced the right number of blocks), N blocks of the mode of the A bit that concatenate to the
+    payload and `pad` zero octets, the CRC-32 of that in the last one"""
+    from bitarray.util import ba2int
+    from okdmr.dmrlib.etsi.crc.crc16 import CRC16
+
+    types = getattr(sys.modules[cls.__module__], cls.__name__ + "Types")
+    if len(wire) != k + 1 + nblocks:
+        fail("burst-count", "number of generated bursts", k + 1 + nblocks, len(wire))
+        return
+    data, btfs = b"", []
+    for i, w in enumerate(wire):
+        role = "preamble" if i < k else "header" if i == k else "block"
+        try:
+            p = l.Burst.from_bytes(w)
+            objs = [("slot type", p.slot_type), (type(p.data).__name__, p.data)]
+            if role == "block":
+                typed = cls.from_bits_typed(p.info_bits_deinterleaved, types.resolve(confirmed=confirmed, last=i == len(wire) - 1))
+                objs.append((f"{cls.__name__} read as {typed.packet_type.name}", typed))
+            bad = [f"{name}.{n}" for name, o in objs if o is not None for n, v in sorted(vars(o).items()) if n.endswith("_ok") and v is not True]
+            if bad:
+                fail("indicator", f"generated burst {i} ({role}) is parsed back with an integrity indicator that is not true", "all true", bad)
+            if role != "block":
+                want_cls = l.CSBK if role == "preamble" else l.DataHeader
+                info_bits = l.BPTC19696.deinterleave_data_bits(p.full_bits[:98] + p.full_bits[166:])
+                if not isinstance(p.data, want_cls):
+                    fail("burst-count", f"generated burst {i} is not a {role}", want_cls.__name__, type(p.data).__name__)
+                    continue
+                mask = l.CrcMasks.CSBK if role == "preamble" else l.CrcMasks.DataHeader
+                if not CRC16.check(l.bitarray(info_bits[:80], endian="big").tobytes(), ba2int(info_bits[80:96]), mask):
+                    fail("indicator", f"the CRC-CCITT of generated burst {i} ({role}) does not verify", "valid", info_bits.tobytes().hex())
+                elif binascii.crc_hqx(info_bits[:80].tobytes(), 0) ^ 0xFFFF ^ mask.value != ba2int(info_bits[80:96]):
+                    fail("indicator", f"the CRC-CCITT of generated burst {i} ({role}) is not the (independently computed) one", "valid", info_bits.tobytes().hex())
+                if role == "preamble":
+                    btfs.append(p.data.blocks_to_follow)
+                    if p.data.csbko != l.CsbkOpcodes.PreambleCSBK or p.colour_code != cc:
+                        fail("preambles", f"generated burst {i} is not a preamble CSBK with the requested colour code", [cc], [p.data.csbko.name, p.colour_code])
+                else:
+                    if hdr_hex is not None and info_bits.tobytes().hex() != hdr_hex:
+                        fail("header", "the header burst does not carry the header that was handed in", hdr_hex, info_bits.tobytes().hex())
+                    if pad_on_air:
+                        pad = p.data.pad_octet_count  # the pad octets announced in the header, as a receiver reads them
+                continue
+            if p.colour_code != cc or not isinstance(p.data, cls):
+                fail("burst-count", f"generated burst {i} is not a {cls.__name__} burst with the requested colour code", [cls.__name__, cc], [type(p.data).__name__, p.colour_code])
+            data += typed.data
+            if i == len(wire) - 1:
+                padded = payload + bytes(pad)
+                if typed.crc32.to_bytes(4, "big") != ref_crc32(padded).to_bytes(4, "little"):
+                    fail("crc32", "the CRC-32 in the last generated block is not the CRC-32 of payload + announced pad octets", ref_crc32(padded).to_bytes(4, "little").hex(), typed.crc32.to_bytes(4, "big").hex())
+        except BaseException as e:  # noqa
+            fail("generated-burst-unparseable", f"generated burst {i} ({role}) cannot be read back: {impl_error(e)}", "burst", impl_error(e))
+            return
+    if data != payload + bytes(pad):
+        fail("payload", "the generated blocks (read in the mode of the header's A bit) do not concatenate to payload + announced pad octets", (payload + bytes(pad)).hex()[:80], data.hex()[:80])
+    if btfs != list(range(k + nblocks, nblocks, -1)):
+        fail("preambles", "generated preamble CSBKs do not count down to the number of bursts that follow the last preamble", list(range(k + nblocks, nblocks, -1))[:4], btfs[:4])
+
+
+def crc9_lines(lines, outs, wire, cls, rate, k):
+    """model vs code on the indicator the model has: `crc9_ok` of the first two and the last generated confirmed block"""
+    l = L()
+    types = getattr(sys.modules[cls.__module__], cls.__name__ + "Types")
+    n = len(wire) - k - 1
+    for j in sorted({0, 1, n - 1} & set(range(n))):
+        try:
+            p = l.Burst.from_bytes(wire[k + 1 + j])
+            typed = cls.from_bits_typed(p.info_bits_deinterleaved, types.resolve(confirmed=True, last=j == n - 1))
+            lines.append(f"frag.crc9ok {rate} {int(j == n - 1)} {p.info_bits_deinterleaved.tobytes().hex()} {typed.calculate_crc9()}")
+            outs.append(str(int(typed.crc9_ok is True)))
+        except BaseException as e:  # noqa
+            lines.append(f"frag.crc9ok {rate} {int(j == n - 1)} - 0")
+            outs.append(impl_error(e))
+
+
+# ------------------------------------------------------------------------------------------------
+# observer-style calls between the steps (round 6): asking an object for its text, its bits, a flag or a status
+# report must not change what happens afterwards
+# ------------------------------------------------------------------------------------------------
+PEEK_NAMES = re.compile(r"^(__repr__|__str__|__len__|__hash__|__bool__|debug|is_.*|has_.*|get_.*|calculate_.*|as_bits|as_bytes)$")
+# a parameter of one of these names switches a side effect on (Timeslot.get_rx_sequence(increment=True)): the
+# observer-style form of the call passes False
+SIDE_EFFECT_FLAGS = ("increment", "advance", "update", "consume", "reset")
+_PEEKS = {}
+
+
+def peek_calls(cls):
+    """[(label, fn(obj))]: the observer-style members of `cls`, found by name"""
+    if cls in _PEEKS:
+        return _PEEKS[cls]
+    import inspect
+
+    calls = [("repr", repr), ("str", str), ("format", lambda o: f"{o}"), ("== itself", lambda o: o == o), ("!= None", lambda o: o != None),  # noqa: E711
+             ("== other", lambda o: o == type(o)), ("len", len), ("hash", hash), ("bool", bool)]
+    for n in dir(cls):
+        try:
+            a = inspect.getattr_static(cls, n)
+        except AttributeError:
+            continue
+        if isinstance(a, property):
+            calls.append((n, lambda o, n=n: getattr(o, n)))
+            continue
+        if not PEEK_NAMES.match(n) or n.startswith("__") or not callable(getattr(cls, n, None)):
+            continue
+        try:
+            ps = list(inspect.signature(getattr(cls, n)).parameters.values())
+        except (TypeError, ValueError):
+            continue
+        if isinstance(a, (staticmethod, classmethod)):
+            req = [q for q in ps if q.default is q.empty and q.kind in (q.POSITIONAL_ONLY, q.POSITIONAL_OR_KEYWORD)]
+        else:
+            req = [q for q in ps[1:] if q.default is q.empty and q.kind in (q.POSITIONAL_ONLY, q.POSITIONAL_OR_KEYWORD)]
+        if req:
+            continue
+        kw = {q.name: False for q in ps if q.name in SIDE_EFFECT_FLAGS}
+        calls.append((n, lambda o, n=n, kw=kw: getattr(o, n)(**kw)))
+        for q in ps:
+            if q.name == "printout":
+                calls.append((n + "(printout=False)", lambda o, n=n, kw=kw: getattr(o, n)(printout=False, **kw)))
+            elif q.default is False and q.name not in SIDE_EFFECT_FLAGS:
+                calls.append((f"{n}({q.name}=True)", lambda o, n=n, kw=kw, q=q: getattr(o, n)(**{q.name: True}, **kw)))
+    _PEEKS[cls] = calls
+    return calls
+
+
+class Peek:
+    """called between the steps of a case with the objects involved; without a seed it does nothing, with one it makes a
+    seed-rotated half of their observer-style calls (whatever these raise is dropped)"""
+
+    def __init__(self, seed):
+        self.rng = None if seed is None else _random.Random(seed)
+        self.n = 0
+
+    def __call__(self, *objs):
+        if self.rng is None:
+            return
+        for o in objs:
+            if o is None or isinstance(o, (bytes, int, str, list)):
+                for x in o if isinstance(o, list) else ():
+                    self(x)
+                continue
+            for label, fn in peek_calls(type(o)):
+                if self.rng.random() < 0.5:
+                    try:
+                        fn(o)
+                    except BaseException:  # noqa: an observer call that fails is the caller's problem, not a step of the case
+                        pass
+                    self.n += 1
+
+
+def run_observed(case):
+    """run_case; for a case with `observe`: also without the observer-style calls, and the outcomes must be the same"""
+    lines, outs, fails, info = run_case(case)
+    if case.get("observe") is not None:
+        plain = {k: v for k, v in case.items() if k != "observe"}
+        _, outs0, fails0, _ = run_case(plain)
+        if outs0 != outs or [f[:2] for f in fails0] != [f[:2] for f in fails]:
+            j = next((i for i, (x, y) in enumerate(zip(outs0, outs)) if x != y), min(len(outs0), len(outs)))
+            fails.append(("read-only-call", f"observer-style calls (repr / str / debug / getters / flags) between the steps change the outcome: first difference at step {j} ({lines[j][:60] if j < len(lines) else 'end'})",
+                          (outs0[j][:200] if j < len(outs0) else [f[0] for f in fails0]), (outs[j][:200] if j < len(outs) else [f[0] for f in fails])))
+    return lines, outs, fails, info
+
+
 def run_case(case):
     """case = dict(rate, confirmed, k, cc, payload hex, sap, dst, src, slot, raises[, ambient, provoke, defaults, header_from_bits, want_rx]).
     Returns (model lines, implementation outputs, oracle failures, info)."""
@@ -432,8 +677,17 @@ def run_case(case):
         if not (0 <= poc < per + 0 or nblocks == 1):
             fail("fragment-arithmetic", "more pad octets than one block holds", f"< {per}", poc)
         # ---- the caller's header
+        spec = case.get("hdr")
+        poc_given, btf_given = poc, nblocks
+        if spec:
+            # round 6: the header fields are chosen independently of each other and of the generator arguments
+            oper, olast = TABLE[(rate, not confirmed)]
+            on = int_blocks(oper, olast, len(payload))
+            poc_given = hdr_poc(spec, poc, (on - 1) * oper + olast - len(payload))
+            btf_given = hdr_btf(spec, nblocks)
+            info["hdr"] = [spec["fmt"], int(spec["a"]), spec.get("poc", "right") if poc_given != poc else "right", spec.get("btf", "right") if btf_given != nblocks else "right"]
         try:
-            header = make_header(confirmed, poc, nblocks, case["sap"], case["dst"], case["src"])
+            header = build_header(spec, poc_given, btf_given) if spec else make_header(confirmed, poc, nblocks, case["sap"], case["dst"], case["src"])
         except OverflowError:
             info["overlong"] = True
             if nblocks <= 127:
@@ -442,7 +696,10 @@ def run_case(case):
         except BaseException as e:  # noqa
             fail("header-raises", f"DataHeader(...) raised {impl_error(e)} instead of a clean OverflowError", "OverflowError", impl_error(e))
             return lines, outs, fails, info
-        if nblocks > 127:
+        if spec and bool(header.is_response_requested) != confirmed:
+            fail("header", "the header does not carry the response requested (A) bit it was built with", confirmed, header.is_response_requested)
+            return lines, outs, fails, info
+        if nblocks > 127 and not spec:
             fail("overlong-accepted", "a header announcing more than 127 blocks was built", "OverflowError", "header")
             return lines, outs, fails, info
         if case.get("header_from_bits"):
@@ -452,7 +709,49 @@ def run_case(case):
             except BaseException as e:  # noqa
                 fail("header-raises", f"DataHeader.from_bits(header.as_bits()) raised {impl_error(e)}", "header", impl_error(e))
                 return lines, outs, fails, info
+        if spec:
+            poc_given = header.pad_octet_count  # (a header without the field on air that went through from_bits says 0)
+            info["hdr"][2] = "right" if poc_given == poc else spec.get("poc", "right") if spec.get("poc", "right") != "right" else "lost-in-from-bits"
         userdata = as_userdata(case.get("userdata_as"), payload, header, info)
+        # what the caller handed in, as the model reads it (taken BEFORE the call: the generator gets the object itself)
+        hdr_hex0 = c08.pdu_hex(header)
+        hbtf0 = header.get_blocks_to_follow()
+        habs = ["-" if hbtf0 is None else str(hbtf0), str(int(bool(header.is_response_requested))), str(header.sap_identifier.value), hdr_hex0, str(header.pad_octet_count)]
+        peek = Peek(case.get("observe"))
+        peek(header, userdata)
+        if poc_given != poc and sys.flags.optimize:
+            # the refusal of a header with another pad octet count is an `assert`: nothing to expect under python -O
+            info["skipped"] = "wrong pad count under -O"
+            return lines, outs, fails, info
+        if k + nblocks > 255:
+            # the blocks-to-follow field of a preamble CSBK has 8 bits: the first preamble would announce k + N
+            try:
+                bursts = l.TransmissionGenerator.generate_full_data_transmission(cls, userdata, header, csbk_count=k, colour_code=cc)
+                [b.as_bytes() for b in bursts]
+                fail("preamble-overflow-accepted", "a transmission whose first preamble would announce more than 255 bursts was generated", "OverflowError", f"{len(bursts)} bursts")
+            except OverflowError:
+                info["overlong"] = True
+            except AssertionError as e:
+                if poc_given == poc:
+                    fail("generator-raises", f"generate_full_data_transmission raised {impl_error(e)}: {str(e)[:100]}", "OverflowError", impl_error(e))
+            except BaseException as e:  # noqa
+                fail("generator-raises", f"generate_full_data_transmission raised {impl_error(e)} instead of a clean OverflowError", "OverflowError", impl_error(e))
+            return lines, outs, fails, info
+        if poc_given != poc:
+            # `assert data_header.pad_octet_count == pad_octet_count`: a header announcing other pad octets than are generated is refused
+            lines.append(" ".join(["frag.full", rate, str(k), str(cc), payload.hex() or "-", "0", "-"] + habs + ["-"]))
+            try:
+                bursts = l.TransmissionGenerator.generate_full_data_transmission(cls, userdata, header, csbk_count=k, colour_code=cc)
+                wire = [b.as_bytes() for b in bursts]
+                outs.append(f"{len(bursts)} bursts")
+            except BaseException as e:  # noqa
+                outs.append(impl_error(e))
+                if not isinstance(e, AssertionError):
+                    fail("generator-raises", f"generate_full_data_transmission raised {impl_error(e)} for a header with a wrong pad octet count", "AssertionError", impl_error(e))
+                return lines, outs, fails, info
+            # accepted (the model refuses: that difference is the correspondence's to report): what comes out must still be as the
+            # property says — blocks = payload + the pad octets that the header ON THE WIRE announces, indicators true
+            info["wrong_pad_accepted"] = True
         try:
             if reseed:
                 _random.seed(0xC07)
@@ -476,15 +775,25 @@ def run_case(case):
         except BaseException as e:  # noqa
             fail("generated-burst-unparseable", f"Burst.from_bytes raised {impl_error(e)} on a generated burst", "burst", impl_error(e))
             return lines, outs, fails, info
+        peek(header, bursts, *[b.data for b in bursts], *[b.slot_type for b in bursts[:k + 2]])
+        # ---- every burst the generator emits satisfies the integrity indicators; on the wire the blocks are the padded payload
+        count_known = k >= 1 or hbtf0 == nblocks  # the receiver learns the number of bursts from a preamble or from the header (a UDT header announces none)
+        if spec or len(wire) <= 24 or case.get("wire_oracle"):
+            wire_oracle(l, fail, wire, cls, rate, confirmed, k, cc, payload, header.pad_octet_count, nblocks, hdr_hex0 if btf_given == nblocks and poc_given == poc else None,
+                        pad_on_air=not spec or spec["fmt"] in POC_ON_AIR)
+            info["wire_oracle"] = True
         # ---- model of the generator: same abstract bursts
         gen_blocks = [b.data for b in bursts[k + 1:]]
+        if not gen_blocks or any(not isinstance(b, cls) for b in gen_blocks):
+            fail("burst-count", "the bursts behind the header are not the data blocks of the requested rate", f"{nblocks} x {cls.__name__}", [type(b).__name__ for b in gen_blocks][:4])
+            return lines, outs, fails, info
         crc32_field = gen_blocks[-1].crc32
         crc9tab = ",".join(f"{b.data.hex()}:{b.crc32}:{b.crc9}" for b in gen_blocks) if confirmed else "-"
-        csbktab = ",".join(f"{b.data.blocks_to_follow}:{c08.pdu_hex(b.data)}" for b in bursts[:k]) or "-"
-        lines.append(" ".join([
-            "frag.full", rate, str(k), str(cc), payload.hex() or "-", str(crc32_field), crc9tab, str(nblocks), str(int(confirmed)),
-            str(case["sap"]), c08.pdu_hex(header), str(poc), csbktab]))
+        csbktab = ",".join(f"{b.data.blocks_to_follow}:{c08.pdu_hex(b.data)}" for b in bursts[:k] if isinstance(b.data, l.CSBK)) or "-"
+        lines.append(" ".join(["frag.full", rate, str(k), str(cc), payload.hex() or "-", str(crc32_field), crc9tab] + habs + [csbktab]))
         outs.append(";".join(toks))
+        if confirmed:
+            crc9_lines(lines, outs, wire, cls, rate, k)
         # ---- the receiver
         observers = [c08.make_observer(r) for r in case["raises"]]
         term = l.Terminal(1, observers)
@@ -531,12 +840,14 @@ def run_case(case):
             burst = l.Burst.from_bytes(w)
             before = [len(o.log) for o in observers]
             lines.append(f"t.burst {slot} {toks[i]}")
+            peek(term, term.timeslots[slot], term.timeslots[slot].transmission, burst, burst.data, header)
             try:
                 out = term.process_incoming_burst(burst, slot)
             except BaseException as e:  # noqa
                 outs.append(impl_error(e))
                 fail("receiver-raises", f"process_incoming_burst raised {impl_error(e)} on generated burst {i}", "no exception", impl_error(e))
                 return lines, outs, fails, info
+            peek(out, term.timeslots[slot], term.timeslots[3 - slot], term.timeslots[slot].transmission)
             ts = term.timeslots[slot]
             news = [o.log[n:] for o, n in zip(observers, before)]
             outs.append(" ".join([str(out.sequence_no), c08.LABEL[out.voice_burst.name], str(int.from_bytes(out.stream_no, "big")),
@@ -544,6 +855,13 @@ def run_case(case):
         lines.append("t.state")
         outs.append(c08.slot_state(term.timeslots[1]) + " / " + c08.slot_state(term.timeslots[2]) + " / " + str(counter.n))
 
+        peek(term, term.timeslots[1], term.timeslots[2], header, *[b for o in observers for e in o.raw if e[0] == "E" for b in e[3][-2:]])
+        if not count_known:
+            # a header that announces another number of blocks than are generated (or none: UDT) and no preamble: the text of
+            # the property does not say what is received; the reference is the model (the tracker lines above) and what is
+            # on the wire (wire_oracle)
+            info["by_model_only"] = True
+            return lines, outs, fails, info
         # ---- oracle: exactly the property
         for j, o in enumerate(observers):
             if case.get("prelude") and [(e[0], e[1]) for e in o.raw[:n_before[j]]] != [("S", "D"), ("E", "D")]:
@@ -555,14 +873,18 @@ def run_case(case):
                 fail("events", f"observer {j} did not receive exactly one 'started data' and one 'data ended'", [["S", "D"], ["E", "D"]], kinds)
                 continue
             _, _, hdr, blocks = ev[1]
-            if not isinstance(hdr, l.DataHeader) or c08.pdu_hex(hdr) != c08.pdu_hex(header):
-                fail("header", "the ended notification does not carry the generated header", c08.pdu_hex(header), c08.canon_hdr(hdr))
+            if not isinstance(hdr, l.DataHeader) or (c08.pdu_hex(hdr) != hdr_hex0 and btf_given == nblocks and poc_given == poc):
+                fail("header", "the ended notification does not carry the generated header", hdr_hex0, c08.canon_hdr(hdr))
                 continue
             rblocks = [b for b in blocks if isinstance(b, (l.Rate12Data, l.Rate34Data, l.Rate1Data))]
-            if any(type(b) is not cls for b in rblocks) or len(rblocks) != nblocks or len(rblocks) != hdr.blocks_to_follow:
+            announced = hdr.get_blocks_to_follow()
+            if any(type(b) is not cls for b in rblocks) or len(rblocks) != nblocks or (btf_given == nblocks and announced is not None and len(rblocks) != announced):
                 fail("block-count", "number / class of received data blocks", nblocks, [type(b).__name__ for b in rblocks][:5] + [len(rblocks)])
             data = b"".join(b.data for b in rblocks)
-            want = payload + b"\x00" * hdr.pad_octet_count
+            # the pad octets announced in the header: the pad octet count field where the format has one on air, else
+            # (response / defined short data / UDT headers) the attribute of the header that was handed in
+            pad_announced = hdr.pad_octet_count if not spec or spec["fmt"] in POC_ON_AIR else poc
+            want = payload + b"\x00" * pad_announced
             if data != want:
                 fail("payload", "received data blocks do not concatenate to payload + announced pad octets", want.hex()[:80], data.hex()[:80])
             sizes = [len(b.data) for b in rblocks]
@@ -688,7 +1010,7 @@ def job_run(job):
     """one job in a worker: a plain case, or a base case plus the cases derived from what it delivered.
     Returns [(desc, case, lines, outs, fails, info)]"""
     if not job.get("derive"):
-        lines, outs, fails, info = run_case(job["case"])
+        lines, outs, fails, info = run_observed(job["case"])
         return [(job["desc"], job["case"], lines, outs, fails, slim(info))]
     rng = _random.Random(job["seed"])
     res = []
@@ -1311,6 +1633,163 @@ def pdu_cases(ctx, rng):
 
 
 # ------------------------------------------------------------------------------------------------
+# round 6 generators: header fields x generator arguments x payload lengths on the block grid x payload content
+# ------------------------------------------------------------------------------------------------
+CONTENT_KINDS = ("random", "zeros", "ones", "constant", "period-block", "period-other-block", "period-2", "period-3", "ramp", "zero-blocks-then-random")
+K_CROSS = (0, 1, 2, 3, 16, 17, 33, 100, "max", "max+1")
+
+
+def content_payload(rng, kind, n, per, per_other):
+    """n payload octets: constant / repeating with the block size (of this mode, of the other mode) / zero stretches —
+    on air neighbouring blocks then carry the same octets"""
+    if kind == "zeros":
+        return bytes(n)
+    if kind == "ones":
+        return b"\xff" * n
+    if kind == "constant":
+        return bytes([rng.randrange(1, 255)]) * n
+    if kind.startswith("period"):
+        q = {"period-block": per, "period-other-block": per_other, "period-2": 2, "period-3": 3}[kind]
+        unit = rbytes(rng, q)
+        return (unit * (n // q + 1))[:n]
+    if kind == "ramp":
+        return bytes((i * 37 + 11) & 0xFF for i in range(n))
+    if kind == "zero-blocks-then-random":
+        z = min(n, 2 * per)
+        return bytes(z) + rbytes(rng, n - z)
+    return rbytes(rng, n)
+
+
+def grid_lengths(rng, per, last, ms):
+    """payload lengths one below / at / one above every place where the number of blocks or the pad count turns over:
+    m full blocks + the last block (pad 0 -> per - 1) and m full blocks exactly"""
+    out = set()
+    for m in ms:
+        for d in (-1, 0, 1):
+            out |= {m * per + last + d, m * per + d}
+    return sorted(x for x in out if 0 <= x <= 126 * per + last)
+
+
+def spec_of(rng, fmt, a, btf="right", poc="right"):
+    return {"fmt": fmt, "a": int(a), "btf": btf, "poc": poc, "group": rng.randrange(2), "sap": rng.choice(SAP_VALUES), "fmf": rng.randrange(2),
+            "dst": rng.choice(ADDRESSES) if rng.random() < 0.3 else rng.randrange(1 << 24), "src": rng.choice(ADDRESSES) if rng.random() < 0.3 else rng.randrange(1 << 24),
+            "fsn": rng.randrange(16), "resync": rng.randrange(2), "ns": rng.randrange(8), "a_as_int": rng.randrange(2), "x": rng.getrandbits(12)}
+
+
+def cross_case(rng, idx, rate, spec, n, k, content="random", cc=None):
+    a = bool(spec["a"])
+    per, last = TABLE[(rate, a)]
+    nb = int_blocks(per, last, n)
+    if k == "max":
+        k = 255 - nb
+    elif k == "max+1":
+        k = 256 - nb
+    c = {"rate": rate, "confirmed": a, "k": k, "cc": rng.randrange(16) if cc is None else cc,
+         "payload": content_payload(rng, content, n, per, TABLE[(rate, not a)][0]).hex(),
+         "sap": spec["sap"], "dst": spec["dst"], "src": spec["src"], "slot": 1 + idx % 2,
+         "raises": [[True, False], [False], [False, True]][idx % 3], "hdr": spec}
+    if spec.get("sap") == 3 and idx % 4 == 0:
+        c["header_from_bits"] = True
+    return c
+
+
+def header_cross_cases(ctx, rng):
+    """[(desc, case, count key)]: the data packet format, the A bit, the announced number of blocks, the preset pad count,
+    SAP, flags and addresses of the caller's header and the generator's own arguments, each on its own"""
+    out = []
+    idx = [0]
+    thorough = ctx.thorough()
+
+    def emit(fam, rate, spec, n, k, content="random"):
+        lim = BTF_LIMIT[spec["fmt"]] if spec["fmt"] != "udt" else 127
+        per, last = TABLE[(rate, bool(spec["a"]))]
+        while int_blocks(per, last, n) + 1 > lim and n > 0:  # the format's block count field must hold N (and the estimate N + 1)
+            n = max(0, n - per * (int_blocks(per, last, n) + 1 - lim))
+        c = cross_case(rng, idx[0], rate, spec, n, k, content)
+        idx[0] += 1
+        out.append((f"hdr:{fam} ({spec['fmt']} A={spec['a']} btf={spec['btf']} poc={spec['poc']} {rate} k={c['k']} len={n} {content})", c,
+                    f"class:hdr:{fam}:{spec['fmt']}:A{spec['a']}"))
+        return c
+
+    def length(rate, a, nb, pad):
+        per, last = TABLE[(rate, a)]
+        return max(0, (nb - 1) * per + last - (pad if nb > 1 else min(pad, last)))
+
+    # ---- (1) format x A bit x rate x announced block count x who tells the receiver the count (header alone / a preamble)
+    btfs = BTF_MODES if thorough else ("right",) + tuple(rng.sample(BTF_MODES[1:], 3))
+    turn = 0
+    for fmt in HDR_FMTS:
+        for a in (0, 1):
+            for rate in RATES:
+                for btf in btfs:
+                    for kc in ((0, 1, 3, 16) if thorough else (0, rng.choice((1, 2, 3, 16)))):
+                        for nb in ((1, 2, 3, 5) if thorough else ((1, 2, 3, 5, 2, 4)[turn % 6],)):
+                            turn += 1
+                            pad = (0, 1, 4, 0, 7)[turn % 5]
+                            if fmt not in POC_ON_AIR and turn % 2:
+                                pad = 0  # these headers have no pad octet count on air: payloads that fill the blocks, and some that do not
+                            emit("format-x-A-x-count", rate, spec_of(rng, fmt, a, btf=btf), length(rate, bool(a), nb, pad), kc,
+                                 CONTENT_KINDS[turn % len(CONTENT_KINDS)] if turn % 3 == 0 else "random")
+    # ---- (2) the preset pad octet count: the generator's, the other mode's, off by one, 0, 31 — and lengths at which both
+    # modes need the SAME pad count (there a generator that takes the mode from elsewhere is refused by nothing)
+    for rate in RATES:
+        same = [n for n in range(0, 6 * TABLE[(rate, False)][0])
+                if (int_blocks(*TABLE[(rate, True)], n) - 1) * TABLE[(rate, True)][0] + TABLE[(rate, True)][1]
+                == (int_blocks(*TABLE[(rate, False)], n) - 1) * TABLE[(rate, False)][0] + TABLE[(rate, False)][1]]
+        for fmt in HDR_FMTS:
+            for a in (0, 1):
+                for n in (same if thorough else rng.sample(same, min(3, len(same)))):
+                    emit("same-pad-in-both-modes", rate, spec_of(rng, fmt, a), n, rng.choice((0, 1, 2)))
+                for pm in POC_MODES[1:]:
+                    for nb in ((1, 2, 4) if thorough else (rng.choice((1, 2, 4)),)):
+                        emit("pad-preset", rate, spec_of(rng, fmt, a, poc=pm, btf=rng.choice(("right", "right", "zero"))),
+                             length(rate, bool(a), nb, rng.choice((0, 1, 3, 5))), rng.choice((0, 1, 3)))
+    # ---- (3) preamble counts beyond the usual ones (the CSBK field has 8 bits), colour codes, with every format
+    for ki, k in enumerate(K_CROSS):
+        for rate in RATES:
+            for a in (0, 1):
+                fmt = HDR_FMTS[(ki + a + RATES.index(rate)) % len(HDR_FMTS)]
+                if not thorough and k in (33, 100, "max", "max+1") and (ki + a + RATES.index(rate)) % 3:
+                    continue
+                emit("preamble-count", rate, spec_of(rng, fmt, a, btf=rng.choice(("right", "right", "plus1"))), length(rate, bool(a), rng.choice((1, 2, 3)), rng.choice((0, 2))), k)
+    # ---- (4) every factor drawn on its own
+    for _ in range(ctx.budget(260, 5000)):
+        rate, a = rng.choice(RATES), rng.randrange(2)
+        spec = spec_of(rng, rng.choice(HDR_FMTS), a, btf=rng.choice(BTF_MODES + ("right",) * 4), poc=rng.choice(POC_MODES + ("right",) * 8))
+        per, last = TABLE[(rate, bool(a))]
+        n = rng.choice(grid_lengths(rng, per, last, (0, 1, 2, rng.randrange(3, 9))))
+        emit("all-factors", rate, spec, n, rng.choice((0, 0, 1, 1, 2, 3, 5, 16, 17, 40)), rng.choice(CONTENT_KINDS + ("random",) * 6))
+    return out
+
+
+def grid_content_cases(ctx, rng):
+    """[(desc, case, count key)] with the usual (coupled) header: payload lengths around every multiple of the block size up
+    to the 127-block limit (seed-rotated share in quick), and constant / periodic / zero payload content at grid lengths"""
+    out = []
+    idx = 0
+    thorough = ctx.thorough()
+    for rate in RATES:
+        for confirmed in (True, False):
+            per, last = TABLE[(rate, confirmed)]
+            ms = range(0, 127) if thorough else sorted({3, 4, 6, 7, 125, 126} | set(rng.sample(range(8, 125), 3)))
+            for n in grid_lengths(rng, per, last, ms):
+                c = make_case(rng, rate, confirmed, n, idx)
+                if n > 20 * per:
+                    c["k"] = (0, 1, 2, 16)[idx % 4]
+                    c["wire_oracle"] = idx % 3 == 0
+                out.append((f"grid (len {n} = {n // per} x {per} + {n % per}, {rate})", c, "class:length-grid"))
+                idx += 1
+            for kind in CONTENT_KINDS[1:]:
+                for nb in ((2, 3, 5, 9) if thorough else (2 + idx % 2, 5)):
+                    pad = (0, 1, per - 1)[idx % 3]
+                    n = max(0, (nb - 1) * per + last - pad)
+                    c = small_case(rng, rate, confirmed, content_payload(rng, kind, n, per, TABLE[(rate, not confirmed)][0]), idx)
+                    out.append((f"content:{kind} ({nb} blocks, {rate})", c, f"class:content:{kind}"))
+                    idx += 1
+    return out
+
+
+# ------------------------------------------------------------------------------------------------
 # child interpreter with assert statements stripped (python -O)
 # ------------------------------------------------------------------------------------------------
 CHILD ="import sys; sys.path.insert(0, sys.argv[1]); from props import c07; c07.child_main()"
@@ -1407,7 +1886,13 @@ def run(ctx):
         "calls before the valid ones) and ambient variants (root logger at DEBUG with a formatting handler, sys.stdout that raises, "
         "global random reseeded before every call, a child python -O over a fixed sample) on a fixed share. A case is one generated "
         "transmission sent through serialise, parse and a real Terminal; distinct = distinct (rate, mode, k, colour code, payload, "
-        "ambient). Over-long payloads (> 127 blocks) must fail cleanly when the header is built."
+        "ambient, header specification). Over-long payloads (> 127 blocks) must fail cleanly when the header is built. Round 6: the caller's header built field by "
+        "field — format (unconfirmed / confirmed / response / defined short data / UDT) x A bit x announced blocks (right, 0, +1, -1, 1, maximum) x "
+        "preset pad count (right, the other mode's, +1, 0, 31) x SAP x group / full-message flag x addresses (incl. 0, 0xFFFFFF) — crossed with rate, "
+        "preamble count (0..16, 17, 33, 100, 255 - N, 256 - N), colour code, lengths one below / at / above every multiple of the block size (+ last block) "
+        "and constant / periodic (block size of this and of the other mode, 2, 3) / zero payloads; lengths at which both modes need the same pad count; "
+        "every generated burst parsed back and all its integrity indicators required; a share of the small cases repeated with observer-style calls "
+        "between the steps (seed-rotated half of repr / str / debug / getters / flags / as_bits of every object involved)."
     )
     ctx.trusted_base += [
         "Lean 4.33 kernel",
@@ -1419,7 +1904,11 @@ def run(ctx):
         "a non-integer quotient is >= 1/24 away from an integer); cross-checked on sampled lengths up to 2^50 in every run",
     ]
     ctx.assumptions += [
-        "the caller supplies a header with pad_octet_count = the generator's pad count, blocks_to_follow = number of data blocks (<= 127), A bit = confirmed mode",
+        "the caller supplies a header with pad_octet_count = the generator's pad count, blocks_to_follow = number of data blocks (<= 127), A bit = confirmed mode "
+        "(the receiver side of the property is judged in full when the header or a preamble announces the right number of blocks; for other headers the unchanged "
+        "generator accepts — announced blocks 0 / an estimate / none (UDT) without preamble — the reference is the model and the bursts on the wire)",
+        "confirmed / unconfirmed is the header's A bit (generator and receiver of the unchanged tree, and the model), whatever the data packet format says; for "
+        "header formats without a pad octet count on air the announced pad is the attribute of the header object handed in",
         "payload length < 2^50",
         "payload is a bytes object or an object with as_bytes() (the generator rejects bytearray / memoryview on the unchanged tree); single-threaded use",
     ]
@@ -1451,6 +1940,13 @@ def run(ctx):
         fam = desc.split(":")[1]
         add(desc, case, sample=fam in ("numbered-run", "own-header") and fam not in sampled, key=key)
         sampled.add(fam)
+    # ---- round 6: header fields and generator arguments crossed; lengths on the block grid; constant / periodic content
+    for desc, case, key in header_cross_cases(ctx, rng):
+        add(desc, case, sample=desc.startswith("hdr:format-x-A-x-count (confirmed A=0 btf=right") and case["k"] == 0 and "hdr-sample" not in sampled, key=key)
+        if jobs[-1]["sample"]:
+            sampled.add("hdr-sample")
+    for desc, case, key in grid_content_cases(ctx, rng):
+        add(desc, case, key=key)
     # ---- payloads derived from what the library delivered / serialised (built in the workers)
     dsizes = (1, 2, 3, 4, 6, 9) if ctx.thorough() else (1, 2, 4)
     for rate in RATES:
@@ -1508,9 +2004,16 @@ def run(ctx):
         else:
             c = dict(j["case"], header_from_bits=True)
             extra.append({"desc": j["desc"] + " [parsed header]", "case": c, "sample": False, "key": "class:header-parsed-by-library"})
+    # observer-style calls between the steps (repr / str / debug / getters / flags of every object involved): the outcome must
+    # be the one without them; a fixed share of the small cases, the subset of calls rotates with the seed
+    for i, j in enumerate(small[1::(4 if ctx.thorough() else 9)]):
+        c = dict(j["case"], observe=rng.getrandbits(32))
+        extra.append({"desc": j["desc"] + " [observer-style calls between the steps]", "case": c, "sample": i == 0, "key": "class:read-only-calls"})
     jobs += extra
     # ---- one child python -O over a fixed sample (first case: a failing call is the first call in that process)
-    pick = [j for j in jobs if not j.get("derive") and len(j["case"]["payload"]) <= 2 * 120]
+    # (a header with a wrong pad octet count is refused by an assert: not under -O)
+    pick = [j for j in jobs if not j.get("derive") and len(j["case"]["payload"]) <= 2 * 120 and (j["case"].get("hdr") or {}).get("poc", "right") == "right"
+            and j["case"].get("observe") is None]
     per_child = 800 if ctx.thorough() else 240
     sel = [j for j in pick if j["desc"].startswith(("fixed:", "selfref:block-end:lib32", "selfref:payload-end:lib32", "selfref:every"))][:per_child // 2]
     chosen_ids = {id(j) for j in sel}
@@ -1529,7 +2032,8 @@ def run(ctx):
         for n_res, (desc, case, lines, outs, fails, info) in enumerate(results):
             sample = job["sample"] and n_res == 0
             ctx.case((case["rate"], case["confirmed"], case["k"], case["cc"], case["payload"], case.get("ambient"), bool(case.get("provoke")), bool(case.get("defaults")), bool(case.get("header_from_bits")),
-                      case.get("userdata_as"), json.dumps(case.get("prelude"), sort_keys=True) if case.get("prelude") else None),
+                      case.get("userdata_as"), json.dumps(case.get("prelude"), sort_keys=True) if case.get("prelude") else None,
+                      json.dumps(case.get("hdr"), sort_keys=True) if case.get("hdr") else None, case.get("observe")),
                      nontrivial=True,
                      sample={"case": desc, "rate": case["rate"], "confirmed": case["confirmed"], "k": case["k"], "len": len(case["payload"]) // 2,
                              "blocks": info["blocks"], "events": outs[-2].split(" ", 4)[-1][:160] if len(outs) > 3 else outs[-1:]} if sample else None)
@@ -1539,6 +2043,13 @@ def run(ctx):
                 ctx.count("class:" + desc.split(" (")[0])
             elif job.get("key"):
                 ctx.count(job["key"])
+            if info.get("hdr"):
+                h = info["hdr"]
+                ctx.count(f"hdr:{h[0]}:A{h[1]}")
+                ctx.count(f"hdr:poc:{h[2]}")
+                ctx.count(f"hdr:btf:{h[3]}" + (":by-model-only" if info.get("by_model_only") else ""))
+            if info.get("wire_oracle"):
+                ctx.count("class:wire-indicators")
             if info["blocks"]:
                 ctx.count("blocks:" + ("1" if info["blocks"] == 1 else "2" if info["blocks"] == 2 else "3-9" if info["blocks"] < 10 else "10-127" if info["blocks"] <= 127 else ">127"))
             for kind, what, exp, act in fails:
@@ -1605,7 +2116,7 @@ def replay(obj):
                 print(f"PROPERTY FAILS under python -O [{kind}] {what}: expected {exp} actual {act}")
             return 1 if res["results"][0]["fails"] else 0
         return 1
-    lines, outs, fails, info = run_case(case)
+    lines, outs, fails, info = run_observed(case)
     model = None
     try:
         import common
